@@ -1,4 +1,5 @@
 import IpcModel.Interleave.Bridge
+import IpcModel.RecvAtt
 /-!
 # C12 — a sender crashing mid-send cannot corrupt a message or falsely close a channel
 
@@ -65,6 +66,24 @@ theorem C12_no_wait_on_dead (sys : Nat) (lens : List Nat) (threads : List (List 
 /-- **C12_survivor (shape)** — the repaired receiver discards a truncated message and goes on receiving; it does not report channel
 closure for it (fact regenerated from the source on every run). -/
 theorem C12_truncated_not_closed : Gen.recvTruncatedIsClosed = false := by decide
+
+/-- **C12_own_attachments** — for the way `recv` handles its attachment vectors now (regenerated: created at entry, filled from the
+first packet only, dropped when a truncated message is discarded): however many truncated messages — with whatever
+descriptors — a call discards first, and whatever an earlier call left behind, the message it finally delivers comes with
+exactly its own descriptors. -/
+theorem C12_own_attachments (dead : List (List Nat)) (own leftover : List Nat) (fragmented : Bool) :
+    RecvAtt.call RecvAtt.codeCfg leftover (RecvAtt.history dead own fragmented) = some own := by
+  have hc : RecvAtt.codeCfg = ⟨true, true⟩ := by decide
+  rw [hc]
+  unfold RecvAtt.call RecvAtt.history
+  simp only [if_true]
+  induction dead with
+  | nil => cases fragmented <;> simp [RecvAtt.run]
+  | cons a t ih => simpa [RecvAtt.run] using ih
+
+/-- sensitivity: vectors kept across the discard (a loop instead of the recursion, or the drops removed) — the survivor's
+message arrives with the dead message's descriptors in front of its own -/
+example : RecvAtt.call ⟨true, false⟩ [] (RecvAtt.history [[7, 8]] [1] false) = some [7, 8, 1] := by decide
 
 /-- non-vacuity: the sender of a 3-packet message dies after the second packet; the message is discarded and the next sender's
 message is delivered -/
